@@ -775,6 +775,50 @@ func runC13(x *X) {
 	x.Explore("live-cell-recolumned", ExploreOpts{ShardDepth: 2, Bound: "cell of column 1 copied by value into column 2 of a new row (same table | second table) x column callbacks {ADD, PRE, POST} registered before/after the copy x 1-2 passes"}, func(c *Chooser) {
 		c13Recolumn(x, c)
 	})
+	// many callbacks in ONE list (lists are pre-sized for 10): distinct callback objects with identical state
+	x.Explore("many-callbacks", ExploreOpts{ShardDepth: 2, Bound: "9..13 indistinguishable-by-value callback objects registered on one (owner, time, target) slot of 4 kinds; 3 render passes"}, func(c *Chooser) {
+		n := 9 + c.Choose(5)
+		slot := c.Choose(4)
+		t := tabular.New()
+		t.AddHeaders("h1", "h2")
+		t.AddRowItems("a", "b")
+		t.AddRowItems("c")
+		var owner tabular.PropertyOwner
+		when, target, per := 1, 1, 0
+		switch slot {
+		case 0:
+			owner, when, target, per = t, 1, 1, 5 // table CELL PRECELL: 2 header + 3 body cells
+		case 1:
+			owner, when, target, per = t, 3, 0, 1 // table ITSELF POSTCELL
+		case 2:
+			owner, when, target, per = t.Column(1), 3, 1, 2 // column 1 CELL POSTCELL: body cells of column 1
+		case 3:
+			cell, _ := t.CellAt(tabular.CellLocation{Row: 1, Column: 2})
+			owner, when, target, per = cell, 2, 0, 1 // cell ITSELF RENDER
+		}
+		cbs := make([]*c13Counter, n)
+		for i := range cbs {
+			cbs[i] = &c13Counter{}
+			if err := registerCB(t, owner, when, target, cbs[i]); err != nil {
+				x.Fail("C13.refused", []string{"many_callbacks"}, "registration %d of %d refused: %v", i+1, n, err)
+			}
+		}
+		c.Logf("%d callback objects with identical state registered on slot %d; 3 render passes", n, slot)
+		x.Transition(n)
+		for pass := 1; pass <= 3; pass++ {
+			t.InvokeRenderCallbacks()
+			x.Transition(1)
+			x.Clause("C13.once")
+			for i, cb := range cbs {
+				if cb.n != pass*per {
+					x.Fail("C13.once", []string{"many_callbacks", fmt.Sprintf("callbacks_in_one_list:%d", n)}, "after pass %d callback %d of %d (slot %d) has fired %d times in total, want %d (%d per pass); counts %v", pass, i+1, n, slot, cb.n, pass*per, per, c13Counts(cbs))
+					return
+				}
+			}
+		}
+		x.State(fmt.Sprint("many", n, slot))
+		x.Nontrivial(fmt.Sprint(n, slot))
+	})
 	pairShapes := []c13Shape{{1, []int{1}}, {2, []int{2, -1}}, {-1, []int{2, 1}}, {1, []int{0, 2}}, {2, []int{2, 2}}, {-1, []int{1}}, {1, []int{-1, 1}}, {2, nil}, {1, []int{2}}, {-1, []int{-1, 2}}, {2, []int{1, 0}}, {1, []int{1, 1}}}
 	if x.Thorough() {
 		pairShapes = shapes
@@ -991,4 +1035,16 @@ func c13Recolumn(x *X, c *Chooser) {
 	}
 	x.State(fmt.Sprint("recolumn", other, when, regFirst))
 	x.Nontrivial(fmt.Sprint(c.path))
+}
+
+type c13Counter struct{ n int }
+
+func (k *c13Counter) UpdateProperties(po tabular.PropertyOwner) error { k.n++; return nil }
+
+func c13Counts(cbs []*c13Counter) []int {
+	out := make([]int, len(cbs))
+	for i, c := range cbs {
+		out[i] = c.n
+	}
+	return out
 }
